@@ -388,16 +388,20 @@ def independently_unparsable(data: bytes) -> bool:
         text = data.decode("utf-8")
     except UnicodeDecodeError:
         return True
-    try:
-        orjson.loads(text)
-        return False
-    except Exception:  # noqa: BLE001
-        pass
-    try:
-        commentjson.loads(text)
-        return False
-    except Exception:  # noqa: BLE001
-        return True
+    # the library reads the file in text mode: "\r\n" and a lone "\r" reach the parser as "\n" (which ENDS a `#` / `//` comment
+    # of the tolerant grammar) - a corruption is unparsable only if it is so in that reading as well
+    for reading in (text, text.replace("\r\n", "\n").replace("\r", "\n")):
+        try:
+            orjson.loads(reading)
+            return False
+        except Exception:  # noqa: BLE001
+            pass
+        try:
+            commentjson.loads(reading)
+            return False
+        except Exception:  # noqa: BLE001
+            pass
+    return True
 
 
 def corrupted_cache_case(ctx, data: bytes, origin, d) -> None:
